@@ -1508,3 +1508,81 @@ def rule_dc1(ctx):
     if n == 0:
         raise AnalysisError("DC1: no store to a view attribute found in FSA "
                             "(anchors vanished)")
+
+
+def rule_vrow1(ctx):
+    r = ctx.r
+    r.rule("VROW1", "the label view has a row for EVERY vertex of the "
+                    "outgoing view, also for a vertex without outgoing "
+                    "edges: where `_graph_dict` is rebuilt from `_out_dict` "
+                    "the rows are created by a comprehension / an "
+                    "unconditional assignment over all vertices, not only "
+                    "as a side effect of storing an edge. The label view is "
+                    "a plain dict (delete_vertex pops the vertex from it, "
+                    "walks rely on KeyError), so a missing row is a KeyError "
+                    "half-way through an edit that has already changed the "
+                    "other two views")
+    cls = fsa_class(ctx)
+    f = cls.methods.get("_build_graph_dict")
+    if f is None:
+        raise AnalysisError("FSA._build_graph_dict has vanished")
+    r.analysed(f)
+    # the local (or expression) stored into self._graph_dict
+    stores = [st for st in ast.walk(f.node) if isinstance(st, ast.Assign)
+              and len(st.targets) == 1
+              and isinstance(st.targets[0], ast.Attribute)
+              and st.targets[0].attr == "_graph_dict"]
+    inst = "_build_graph_dict:rows"
+    if not stores:
+        r.note("VROW1", loc(f, f.node), inst,
+               "`self._graph_dict` is not assigned here (not judged)")
+        return
+    v = stores[-1].value
+    name = v.id if isinstance(v, ast.Name) else None
+
+    def over_all_vertices(it):
+        t = dotted(it)
+        return t.startswith("self._out_dict") or t in (
+            "self.vertices()", "self._out_dict.keys()")
+    ok = False
+    if isinstance(v, ast.DictComp) and over_all_vertices(
+            v.generators[0].iter):
+        ok = True
+    if name:
+        for st in ast.walk(f.node):
+            if isinstance(st, ast.Assign) and len(st.targets) == 1 \
+                    and isinstance(st.targets[0], ast.Name) \
+                    and st.targets[0].id == name \
+                    and isinstance(st.value, ast.DictComp) \
+                    and over_all_vertices(st.value.generators[0].iter):
+                ok = True
+            # for v in <all vertices>: <name>[v] = ...   (top of the body)
+            if isinstance(st, ast.For) and over_all_vertices(st.iter):
+                tv = st.target.elts[0] if isinstance(
+                    st.target, ast.Tuple) else st.target
+                for b in st.body:
+                    if isinstance(b, ast.Assign) and len(b.targets) == 1 \
+                            and isinstance(b.targets[0], ast.Subscript) \
+                            and dotted(b.targets[0].value) == name \
+                            and dotted(b.targets[0].slice) == dotted(tv):
+                        ok = True
+                    for c in ast.walk(b) if isinstance(b, ast.Expr) else []:
+                        if isinstance(c, ast.Call) and isinstance(
+                                c.func, ast.Attribute) \
+                                and c.func.attr == "setdefault" \
+                                and dotted(c.func.value) == name and c.args \
+                                and dotted(c.args[0]) == dotted(tv):
+                            ok = True
+    if ok:
+        r.ok("VROW1", inst, loc(f, stores[-1]), norm_stmt(stores[-1])[:80],
+             "a row is created for every vertex of the outgoing view")
+    else:
+        r.violation(
+            "VROW1", f"{f.fq}|rows", loc(f, stores[-1]),
+            norm_stmt(stores[-1])[:120],
+            "the rows of the rebuilt label view are created only where an "
+            "edge is stored: a vertex without outgoing edges (a dead end of "
+            "a target->labels dictionary) gets no row, so graph_dict and "
+            "vertices() disagree and delete_vertex / recurrent on it raise "
+            "KeyError after the other two views have been edited",
+            instance=inst)
